@@ -1,6 +1,6 @@
 SPECIFICATION Spec
 CONSTANTS
   ValSet <- ValsQuick
-  Contexts <- ContextsQuick
+  Contexts <- ContextsQuickAll
 INVARIANTS MachineMeetsTable Terminates
 CHECK_DEADLOCK FALSE
